@@ -499,6 +499,18 @@ def r178(prog, chk):
             chk.ob("R17.8", f"{fi.short}|{A.keytext(fi.node, c)}|the writer's feature file is handed to makeGlyphClassDefinitions", ok, where(fi, c), detail=T(a) if a is not None else "no feaFile argument",
                    message=f"{fi.short}: glyph classes are generated without looking at the class names of the user's feature file: a generated class can redefine a user's class of the same name")
     need(n >= 2, "makeGlyphClassDefinitions call sites not found")
+    # who may define a glyph class without going through that reservation: only callers that pick the name with
+    # makeFeaClassName(<name>, <names already defined>) themselves
+    for fi in ix.functions.values():
+        if not fi.module.name.startswith("ufo2ft.featureWriters") or fi.module.name.endswith(".ast") or isinstance(fi.node, ast.Lambda):
+            continue
+        for c in A.body_nodes(fi.node):
+            if isinstance(c, ast.Call) and A.callee_name(c) in ("makeGlyphClassDefinition", "GlyphClassDefinition") and c.args:
+                okn, _ = every_origin(prog, fi, c.args[0], lambda x, ff: isinstance(x, ast.Call) and A.callee_name(x) == "makeFeaClassName" and (len(x.args) >= 2 or A.kwarg(x, "existingClassNames") is not None),
+                                      allow_const=False)
+                chk.ob("R17.8", f"{fi.short}|{A.keytext(fi.node, c)}|a class defined directly gets a name checked against the existing ones", okn, where(fi, c), detail=T(c, 70),
+                       message=f"{fi.short} defines a glyph class under a name that was not checked against the classes already defined (`{T(c, 60)}`): feaLib lets a later definition "
+                               f"silently replace the user's class of that name for every statement that follows")
     chk.minimum("R17.8", 4)
 
 
@@ -690,6 +702,8 @@ def r1712(prog, chk):
 
 
 MUTANTS = [
+    M("mark filtering set class defined without reserving the user's class names (seeded C17m)", "ufo2ft/featureWriters/markFeatureWriter.py", "MarkFeatureWriter._makeMarkFilteringSetClass",
+      "return ast.makeGlyphClassDefinitions({className: members}, feaFile=self.context.feaFile)[className]", "return ast.makeGlyphClassDefinition(ast.makeFeaClassName(className), members)", rule="R17.8"),
     M("after a name clash later marks still go to the user's class (seeded C17l)", "ufo2ft/featureWriters/markFeatureWriter.py", "MarkFeatureWriter._makeMarkClassDefinitions",
       "className = mcd.markClass.name", "pass", rule="R17.12"),
     M("marker pattern searched anywhere in the comment (seeded C17j)", "ufo2ft/featureWriters/ast.py", "findCommentPattern",
